@@ -548,7 +548,9 @@ def o8(h, st):
 
 @contract("C10", "O9.sampled.wide_registers.deterministic", level="B",
           structures=lambda tier: [{"n": n, "n_meas": m, "save": sv, "desired": d, "init": it} for n, m in ((9, 2), (8, 3), (10, 1), (7, 4), (11, 2), (3, 1)) for sv in (True, False)
-                                   for d in (False, True) for it in (False, True) if (sv or not d) and (not it or n in (3, 7, 9))][:: 1 if tier != "quick" else 1],
+                                   for d in (False, True) for it in (False, True) if (sv or not d) and (not it or n in (3, 7, 9))][:: 1 if tier != "quick" else 1]
+                                  # a noise model (all rates zero, so that every outcome stays certain) sends the desired-outcome request through the density-matrix route
+                                  + [{"n": n, "n_meas": m, "save": True, "desired": True, "init": it, "noisy": True} for n, m in ((3, 1), (4, 2), (5, 3)) for it in (False, True)],
           native_samples=lambda st, rnd, tier: [{"seed": rnd.randint(0, 10 ** 6)}],
           targets=[(BK, "Backend.simulate"), (TGC, "CirqSimulator.simulate_circuit")])
 def o9(h, st):
@@ -594,7 +596,14 @@ def o9(h, st):
     final = "".join(str(b) for b in bits)
     c = mk_circuit(gates, n)
     shots = 12
-    sim = get_backend("cirq", n_shots=shots)
+    if st.get("noisy"):
+        from tangelo.linq.noisy_simulation import NoiseModel
+        nm = NoiseModel()
+        nm.add_quantum_error("X", "pauli", [0.0, 0.0, 0.0])
+        nm.add_quantum_error("CNOT", "depol", 0.0)
+        sim = get_backend("cirq", n_shots=shots, noise_model=nm)
+    else:
+        sim = get_backend("cirq", n_shots=shots)
     desired = mid if st["desired"] else None
     freqs, _ = h.call(BK, "Backend.simulate", sim, c, False, init_sv, desired, st["save"])
     freqs = {k: v for k, v in freqs.items() if abs(v) > 1e-12}
